@@ -1,13 +1,812 @@
-//! C16 — not implemented yet.
+//! C16 — time trigger: schedule computation, firing and rescheduling, panics.
+//!
+//! Real code: `TimeTrigger::get_next_time` (through the guarded wrapper), `TimeTrigger::new` and
+//! `Trigger::trigger` under the clock override, the latter driven through a real
+//! `RollingFileAppender` + `CompoundPolicy(TimeTrigger, FixedWindowRoller)`.
+//!
+//! chrono reads `TZ` once per process, so every case is executed in a child process of its zone:
+//! `verif-harness child c16` with `TZ` in the child's environment, one persistent child per zone,
+//! one request line / one answer line over pipes.
+//!
+//! Case (after the id):  kind  tz(hex)  secs  nanos  unit  n  modulate  maxdelay  arrivals
+//!   kind      next | trig
+//!   arrivals  `~` or comma list of `secs:nanos` (absolute instants; `trig` only)
+//! Observation, one field, space separated:
+//!   next:  facts  result
+//!   trig:  facts0 result0 (facts_i result_i)*  T  sched0  (fired:sched)*  segs
+//!   facts  = civ ; lnow ; offNow ; mk ; offTrunc ; offRes ; chg ; rciv       (what chrono told the code)
+//!     civ      y,month0,day,ordinal0,isoweek0,weekday(from Monday),hour,minute,second   of `current`
+//!     lnow     local naive seconds of `current` (floor), offNow its UTC offset
+//!     mk       y,mo,d,h,mi,s,kind,a,b : the civil time get_next_time hands to
+//!              `Local.with_ymd_and_hms` and chrono's answer, kind s(ingle a) a(mbiguous a b) n(one)
+//!              x (the arithmetic before it does not fit the machine types)
+//!     offTrunc UTC offset at that instant when single; offRes, rciv offset and civil fields of
+//!              the result; chg = 1 when the offset changes anywhere between `current` and the result
+//!   result = UTC seconds of the returned instant (its nanoseconds are asserted zero) | P.<class>
+use crate::proto::*;
 use crate::rng::Rng;
+use chrono::{DateTime, Datelike, Local, LocalResult, Offset, TimeZone, Timelike};
+use log4rs::append::rolling_file::policy::compound::trigger::time::{TimeTrigger, TimeTriggerInterval};
+use log4rs::append::rolling_file::policy::compound::trigger::Trigger;
+use log4rs::append::rolling_file::policy::compound::{roll::fixed_window::FixedWindowRoller, CompoundPolicy};
+use log4rs::append::rolling_file::{LogFile, RollingFileAppender};
+use log4rs::append::Append;
+use log4rs::encode::pattern::PatternEncoder;
+use std::collections::HashMap;
+use std::io::{BufRead, BufReader, Write};
+use std::process::{Child, ChildStdin, ChildStdout, Command, Stdio};
+use std::sync::{Arc, Mutex};
 
-pub fn gen(_rng: &mut Rng, _n: usize, _thorough: bool, _emit: &mut dyn FnMut(String)) {}
+pub const UNITS: &[&str] = &["second", "minute", "hour", "day", "week", "month", "year"];
+const NS: &[i64] = &[1, 2, 3, 5, 7, 12, 13, 24, 25, 60, 61];
+const ZONES_QUICK: &[&str] = &["UTC", "Asia/Kathmandu", "Europe/Berlin", "Australia/Lord_Howe"];
+const ZONES_ALL: &[&str] = &[
+    "UTC",
+    "Asia/Kolkata",
+    "Asia/Kathmandu",
+    "Europe/Berlin",
+    "America/St_Johns",
+    "America/Sao_Paulo",
+    "Australia/Lord_Howe",
+    "EST5EDT,M3.2.0,M11.1.0",
+    "<+0345>-3:45<+0515>,M10.1.0/1:45,M3.3.0/3",
+];
 
-pub fn exec(_fields: &[&str]) -> String {
-    "unimplemented".to_owned()
+// ---------------------------------------------------------------------------------------------
+// parent side: persistent children, one per zone
+// ---------------------------------------------------------------------------------------------
+struct Proc {
+    child: Child,
+    stdin: ChildStdin,
+    stdout: BufReader<ChildStdout>,
 }
 
-/// child-process entry point (`verif-harness child c16 …`), for checks that need process-global state
+static CHILDREN: Mutex<Option<HashMap<String, Proc>>> = Mutex::new(None);
+
+fn spawn(tz: &str) -> Option<Proc> {
+    let exe = std::env::current_exe().ok()?;
+    let mut child = Command::new(exe)
+        .args(["child", "c16"])
+        .env("TZ", tz)
+        .stdin(Stdio::piped())
+        .stdout(Stdio::piped())
+        .stderr(Stdio::null())
+        .spawn()
+        .ok()?;
+    let stdin = child.stdin.take()?;
+    let stdout = BufReader::new(child.stdout.take()?);
+    Some(Proc { child, stdin, stdout })
+}
+
+/// one request line to the child of zone `tz`, one answer line back
+fn ask(tz: &str, line: &str) -> String {
+    let mut guard = CHILDREN.lock().unwrap();
+    let map = guard.get_or_insert_with(HashMap::new);
+    if !map.contains_key(tz) {
+        match spawn(tz) {
+            Some(p) => {
+                map.insert(tz.to_owned(), p);
+            }
+            None => return "ABORT spawn".to_owned(),
+        }
+    }
+    let p = map.get_mut(tz).unwrap();
+    let ok = writeln!(p.stdin, "{}", line).is_ok() && p.stdin.flush().is_ok();
+    let mut ans = String::new();
+    if !ok || p.stdout.read_line(&mut ans).unwrap_or(0) == 0 {
+        // the child died (abort inside the real code): report and start a fresh one next time
+        let mut dead = map.remove(tz).unwrap();
+        let _ = dead.child.kill();
+        let _ = dead.child.wait();
+        return "ABORT child".to_owned();
+    }
+    while ans.ends_with('\n') || ans.ends_with('\r') {
+        ans.pop();
+    }
+    ans
+}
+
+fn tz_hex(tz: &str) -> String {
+    enc_bytes(tz.as_bytes())
+}
+
+pub fn exec(fields: &[&str]) -> String {
+    if fields.len() != 9 {
+        return "bad-case".to_owned();
+    }
+    let tz = match dec_bytes(fields[1]).and_then(|b| String::from_utf8(b).ok()) {
+        Some(t) if !t.is_empty() && !t.contains('\n') => t,
+        _ => return "bad-case".to_owned(),
+    };
+    ask(&tz, &fields.join("\t"))
+}
+
+// ---------------------------------------------------------------------------------------------
+// child side
+// ---------------------------------------------------------------------------------------------
 pub fn child(_args: &[String]) -> i32 {
-    2
+    let stdin = std::io::stdin();
+    let out = std::io::stdout();
+    let mut out = out.lock();
+    for line in stdin.lock().lines() {
+        let line = match line {
+            Ok(l) => l,
+            Err(_) => break,
+        };
+        let f: Vec<&str> = line.split('\t').collect();
+        let ans = match f[0] {
+            "next" | "trig" => run_case(&f),
+            "transitions" => transitions(&f),
+            "resolve" => resolve(&f),
+            _ => "bad-case".to_owned(),
+        };
+        if writeln!(out, "{}", ans).is_err() || out.flush().is_err() {
+            break;
+        }
+    }
+    0
+}
+
+fn interval_of(unit: &str, n: i64) -> Option<TimeTriggerInterval> {
+    Some(match unit {
+        "second" => TimeTriggerInterval::Second(n),
+        "minute" => TimeTriggerInterval::Minute(n),
+        "hour" => TimeTriggerInterval::Hour(n),
+        "day" => TimeTriggerInterval::Day(n),
+        "week" => TimeTriggerInterval::Week(n),
+        "month" => TimeTriggerInterval::Month(n),
+        "year" => TimeTriggerInterval::Year(n),
+        _ => return None,
+    })
+}
+
+fn panic_class(msg: &str) -> &'static str {
+    if msg.contains("No such local time") {
+        "mk-none"
+    } else if msg.contains("Ambiguous local time") {
+        "mk-ambiguous"
+    } else if msg.contains("out of bounds") {
+        "duration"
+    } else if msg.contains("overflowed") {
+        "datetime"
+    } else if msg.contains("divisor of zero") {
+        "div-zero"
+    } else if msg.contains("with overflow") {
+        "arith"
+    } else if msg.contains("PoisonError") {
+        "poisoned"
+    } else {
+        "other"
+    }
+}
+
+/// The civil time `get_next_time` hands to `with_ymd_and_hms`, computed independently in wide
+/// arithmetic (None: the arithmetic before the call does not fit i32/u32/i64 and the code cannot
+/// reach the call in an overflow-checked build, or divides by zero).
+fn mk_query(now: &DateTime<Local>, unit: &str, n: i64, modulate: bool) -> Option<(i128, u32, u32, u32, u32, u32)> {
+    let year = now.year() as i128;
+    match unit {
+        "year" => {
+            let n32 = (n as i32) as i128;
+            let inc = if modulate {
+                if n32 == 0 {
+                    return None;
+                }
+                // Rust `%`: truncated remainder, same as i128 `%`
+                n32 - year % n32
+            } else {
+                n32
+            };
+            if inc < i32::MIN as i128 || inc > i32::MAX as i128 {
+                return None;
+            }
+            let y = year + inc;
+            if y < i32::MIN as i128 || y > i32::MAX as i128 {
+                return None;
+            }
+            Some((y, 1, 1, 0, 0, 0))
+        }
+        "month" => {
+            let nu = (n as u32) as i128;
+            let m0 = now.month0() as i128;
+            let inc = if modulate {
+                if nu == 0 {
+                    return None;
+                }
+                nu - m0 % nu
+            } else {
+                nu
+            };
+            let yu = (now.year() as u32) as i128;
+            let months = yu * 12;
+            if months > u32::MAX as i128 || months + m0 > u32::MAX as i128 {
+                return None;
+            }
+            let new = months + m0 + inc;
+            if new > u32::MAX as i128 {
+                return None;
+            }
+            Some((((new / 12) as u32 as i32) as i128, (new % 12 + 1) as u32, 1, 0, 0, 0))
+        }
+        "week" | "day" => Some((year, now.month(), now.day(), 0, 0, 0)),
+        "hour" => Some((year, now.month(), now.day(), now.hour(), 0, 0)),
+        "minute" => Some((year, now.month(), now.day(), now.hour(), now.minute(), 0)),
+        "second" => Some((year, now.month(), now.day(), now.hour(), now.minute(), now.second())),
+        _ => None,
+    }
+}
+
+fn offset_changes_between(a: i64, b: i64, off_a: i32) -> bool {
+    // sampled: both ends, and up to 512 equidistant instants in between (at least hourly for
+    // spans up to three weeks); transitions the sampling can miss are shorter than span/512
+    if b <= a {
+        return false;
+    }
+    let span = b - a;
+    let step = std::cmp::max(1, span / 512);
+    let mut t = a;
+    while t <= b {
+        match Local.timestamp_opt(t, 0).single() {
+            Some(d) => {
+                if d.offset().fix().local_minus_utc() != off_a {
+                    return true;
+                }
+            }
+            None => return true,
+        }
+        t += step;
+    }
+    match Local.timestamp_opt(b, 0).single() {
+        Some(d) => d.offset().fix().local_minus_utc() != off_a,
+        None => true,
+    }
+}
+
+/// facts + result of the pure schedule computation at one instant
+fn block(now: &DateTime<Local>, unit: &str, n: i64, modulate: bool) -> (String, String) {
+    let interval = interval_of(unit, n).unwrap();
+    let civ = format!(
+        "{},{},{},{},{},{},{},{},{}",
+        now.year(),
+        now.month0(),
+        now.day(),
+        now.ordinal0(),
+        now.iso_week().week0(),
+        now.weekday().num_days_from_monday(),
+        now.hour(),
+        now.minute(),
+        now.second()
+    );
+    let off_now = now.offset().fix().local_minus_utc();
+    let lnow = now.naive_local().and_utc().timestamp();
+    let (mk, off_trunc) = match mk_query(now, unit, n, modulate) {
+        None => ("0,0,0,0,0,0,x,0,0".to_owned(), "-".to_owned()),
+        Some((y, mo, d, h, mi, s)) => {
+            let r = if y < i32::MIN as i128 || y > i32::MAX as i128 {
+                LocalResult::None
+            } else {
+                Local.with_ymd_and_hms(y as i32, mo, d, h, mi, s)
+            };
+            match r {
+                LocalResult::Single(t) => (
+                    format!("{},{},{},{},{},{},s,{},0", y, mo, d, h, mi, s, t.timestamp()),
+                    t.offset().fix().local_minus_utc().to_string(),
+                ),
+                LocalResult::Ambiguous(a, b) => (
+                    format!("{},{},{},{},{},{},a,{},{}", y, mo, d, h, mi, s, a.timestamp(), b.timestamp()),
+                    "-".to_owned(),
+                ),
+                LocalResult::None => (format!("{},{},{},{},{},{},n,0,0", y, mo, d, h, mi, s), "-".to_owned()),
+            }
+        }
+    };
+    let cur = *now;
+    let res = guarded(move || TimeTrigger::verif_get_next_time(cur, interval, modulate));
+    let (result, off_res, chg, rciv) = match res {
+        Ok(t) => {
+            let result = if t.timestamp_subsec_nanos() == 0 {
+                t.timestamp().to_string()
+            } else {
+                format!("{}+{}ns", t.timestamp(), t.timestamp_subsec_nanos())
+            };
+            let off_res = t.offset().fix().local_minus_utc();
+            let chg = offset_changes_between(now.timestamp(), t.timestamp(), off_now);
+            (
+                result,
+                off_res.to_string(),
+                enc_bool(chg).to_owned(),
+                format!("{},{},{},{},{},{}", t.year(), t.month(), t.day(), t.hour(), t.minute(), t.second()),
+            )
+        }
+        Err(msg) => (format!("P.{}", panic_class(&msg)), "-".to_owned(), "-".to_owned(), "-".to_owned()),
+    };
+    (
+        format!("{};{};{};{};{};{};{};{}", civ, lnow, off_now, mk, off_trunc, off_res, chg, rciv),
+        result,
+    )
+}
+
+/// wrapper that lets the harness watch the real trigger from inside the real policy
+#[derive(Debug)]
+struct Spy {
+    inner: TimeTrigger,
+    log: Arc<Mutex<Vec<String>>>,
+}
+
+impl Trigger for Spy {
+    fn trigger(&self, file: &LogFile) -> anyhow::Result<bool> {
+        let r = std::panic::catch_unwind(std::panic::AssertUnwindSafe(|| self.inner.trigger(file)));
+        match r {
+            Ok(Ok(fired)) => {
+                let sched = std::panic::catch_unwind(std::panic::AssertUnwindSafe(|| self.inner.verif_next_roll_time()));
+                let s = match sched {
+                    Ok(t) => t.timestamp().to_string(),
+                    Err(_) => "P".to_owned(),
+                };
+                self.log.lock().unwrap().push(format!("{}:{}", enc_bool(fired), s));
+                Ok(fired)
+            }
+            Ok(Err(e)) => {
+                self.log.lock().unwrap().push("E".to_owned());
+                Err(e)
+            }
+            Err(p) => {
+                let msg = if let Some(s) = p.downcast_ref::<&str>() {
+                    s.to_string()
+                } else if let Some(s) = p.downcast_ref::<String>() {
+                    s.clone()
+                } else {
+                    "panic".to_owned()
+                };
+                self.log.lock().unwrap().push(format!("P.{}", panic_class(&msg)));
+                std::panic::resume_unwind(p)
+            }
+        }
+    }
+    fn is_pre_process(&self) -> bool {
+        self.inner.is_pre_process()
+    }
+}
+
+fn parse_instant(s: &str) -> Option<(i64, u32)> {
+    let (a, b) = s.split_once(':')?;
+    let secs: i64 = a.parse().ok()?;
+    let nanos: u32 = b.parse().ok()?;
+    if nanos >= 1_000_000_000 {
+        return None;
+    }
+    Some((secs, nanos))
+}
+
+static COUNTER: std::sync::atomic::AtomicU64 = std::sync::atomic::AtomicU64::new(0);
+
+fn run_case(f: &[&str]) -> String {
+    if f.len() != 9 {
+        return "bad-case".to_owned();
+    }
+    let kind = f[0];
+    let secs: i64 = match f[2].parse() {
+        Ok(v) => v,
+        Err(_) => return "bad-case".to_owned(),
+    };
+    let nanos: u32 = match f[3].parse() {
+        Ok(v) if v < 1_000_000_000 => v,
+        _ => return "bad-case".to_owned(),
+    };
+    let unit = f[4];
+    let n: i64 = match f[5].parse() {
+        Ok(v) => v,
+        Err(_) => return "bad-case".to_owned(),
+    };
+    if interval_of(unit, n).is_none() {
+        return "bad-case".to_owned();
+    }
+    let modulate = match f[6] {
+        "0" => false,
+        "1" => true,
+        _ => return "bad-case".to_owned(),
+    };
+    let maxdelay: u64 = match f[7].parse() {
+        Ok(v) => v,
+        Err(_) => return "bad-case".to_owned(),
+    };
+    let arrivals: Option<Vec<(i64, u32)>> = dec_list(',', f[8]).iter().map(|s| parse_instant(s)).collect();
+    let arrivals = match arrivals {
+        Some(a) => a,
+        None => return "bad-case".to_owned(),
+    };
+    // the same range the clock override accepts (outside it the override falls back to the wall clock)
+    let now = match Local.timestamp_opt(secs, nanos).single() {
+        Some(t) => t,
+        None => return "bad-case".to_owned(),
+    };
+    let (facts, result) = block(&now, unit, n, modulate);
+    if kind == "next" {
+        if !arrivals.is_empty() || maxdelay != 0 {
+            return "bad-case".to_owned();
+        }
+        return format!("{} {}", facts, result);
+    }
+    let mut out = vec![facts, result];
+    let mut instants = Vec::new();
+    for (s, ns) in arrivals.iter() {
+        let t = match Local.timestamp_opt(*s, *ns).single() {
+            Some(t) => t,
+            None => return "bad-case".to_owned(),
+        };
+        let (fa, re) = block(&t, unit, n, modulate);
+        out.push(fa);
+        out.push(re);
+        instants.push((*s, *ns));
+    }
+    out.push("T".to_owned());
+
+    // the stateful part: a real appender under the driven clock
+    let clock = Arc::new(Mutex::new((secs, nanos)));
+    let c2 = clock.clone();
+    log4rs::verif_hooks::set_now(Some(Arc::new(move || Some(*c2.lock().unwrap()))));
+    let scratch = std::env::var("VERIF_SCRATCH").unwrap_or_else(|_| "/tmp".to_owned());
+    let dir = std::path::PathBuf::from(scratch).join(format!(
+        "c16_{}_{}",
+        std::process::id(),
+        COUNTER.fetch_add(1, std::sync::atomic::Ordering::SeqCst)
+    ));
+    let _ = std::fs::remove_dir_all(&dir);
+    std::fs::create_dir_all(&dir).unwrap();
+    let interval = interval_of(unit, n).unwrap();
+    let cfg = TimeTrigger::verif_config(interval, modulate, maxdelay);
+    let created = guarded(move || TimeTrigger::new(cfg));
+    match created {
+        Err(msg) => {
+            out.push(format!("P.{}", panic_class(&msg)));
+        }
+        Ok(trigger) => {
+            out.push(trigger.verif_next_roll_time().timestamp().to_string());
+            let log = Arc::new(Mutex::new(Vec::new()));
+            let spy = Spy { inner: trigger, log: log.clone() };
+            let roller = FixedWindowRoller::builder()
+                .build(dir.join("a.{}").to_str().unwrap(), 16)
+                .unwrap();
+            let policy = CompoundPolicy::new(Box::new(spy), Box::new(roller));
+            let appender = RollingFileAppender::builder()
+                .encoder(Box::new(PatternEncoder::new("{m}{n}")))
+                .build(dir.join("a.log"), Box::new(policy))
+                .unwrap();
+            for (i, inst) in instants.iter().enumerate() {
+                *clock.lock().unwrap() = *inst;
+                let before = log.lock().unwrap().len();
+                let r = std::panic::catch_unwind(std::panic::AssertUnwindSafe(|| {
+                    appender.append(
+                        &log::Record::builder()
+                            .level(log::Level::Info)
+                            .args(format_args!("r{}", i + 1))
+                            .build(),
+                    )
+                }));
+                let entries: Vec<String> = log.lock().unwrap()[before..].to_vec();
+                let e = match (r, entries.as_slice()) {
+                    (Ok(Ok(())), [one]) => one.clone(),
+                    (Err(_), [one]) if one.starts_with("P.") => one.clone(),
+                    (Ok(Err(_)), _) => "E".to_owned(),
+                    _ => "?".to_owned(),
+                };
+                out.push(e);
+            }
+            drop(appender);
+            // segmentation on disk, oldest file first: archives a.15 … a.0, then the active file
+            let mut segs = Vec::new();
+            let mut names: Vec<String> = (0..16).rev().map(|i| format!("a.{}", i)).collect();
+            names.push("a.log".to_owned());
+            for name in names {
+                if let Ok(text) = std::fs::read_to_string(dir.join(&name)) {
+                    let recs: Vec<String> = text
+                        .lines()
+                        .map(|l| l.strip_prefix('r').unwrap_or("?").to_owned())
+                        .collect();
+                    segs.push(enc_list(",", &recs));
+                }
+            }
+            out.push(if segs.is_empty() { "-".to_owned() } else { segs.join(";") });
+        }
+    }
+    log4rs::verif_hooks::set_now(None);
+    let _ = std::fs::remove_dir_all(&dir);
+    out.join(" ")
+}
+
+/// `transitions <from> <to>`: UTC instants in [from, to] at which the zone's offset changes
+/// (first second of the new offset), as `secs:before:after` comma list
+fn transitions(f: &[&str]) -> String {
+    let from: i64 = f.get(1).and_then(|s| s.parse().ok()).unwrap_or(0);
+    let to: i64 = f.get(2).and_then(|s| s.parse().ok()).unwrap_or(0);
+    let off = |t: i64| Local.timestamp_opt(t, 0).single().map(|d| d.offset().fix().local_minus_utc()).unwrap_or(0);
+    let mut res = Vec::new();
+    let step = 86400;
+    let mut t = from;
+    let mut o = off(t);
+    while t < to {
+        let t2 = t + step;
+        let o2 = off(t2);
+        if o2 != o {
+            let (mut lo, mut hi) = (t, t2);
+            while hi - lo > 1 {
+                let mid = lo + (hi - lo) / 2;
+                if off(mid) == o {
+                    lo = mid;
+                } else {
+                    hi = mid;
+                }
+            }
+            res.push(format!("{}:{}:{}", hi, o, off(hi)));
+        }
+        t = t2;
+        o = o2;
+    }
+    enc_list(",", &res)
+}
+
+/// `resolve y,mo,d,h,mi,s;…`: earliest UTC seconds of each local civil time (`-` when it does not exist)
+fn resolve(f: &[&str]) -> String {
+    let items = dec_list(';', f.get(1).copied().unwrap_or("~"));
+    let res: Vec<String> = items
+        .iter()
+        .map(|it| {
+            let p: Vec<i64> = it.split(',').filter_map(|x| x.parse().ok()).collect();
+            if p.len() != 6 {
+                return "-".to_owned();
+            }
+            match Local
+                .with_ymd_and_hms(p[0] as i32, p[1] as u32, p[2] as u32, p[3] as u32, p[4] as u32, p[5] as u32)
+                .earliest()
+            {
+                Some(t) => t.timestamp().to_string(),
+                None => "-".to_owned(),
+            }
+        })
+        .collect();
+    enc_list(",", &res)
+}
+
+// ---------------------------------------------------------------------------------------------
+// generator
+// ---------------------------------------------------------------------------------------------
+const CIVIL_BASES: &[(i64, i64, i64)] = &[
+    (1970, 1, 5),   // Monday, first ISO week of 1970 plus one
+    (2000, 2, 29),  // leap day of a year divisible by 400
+    (2000, 3, 1),
+    (2021, 1, 4),   // Monday after ISO week 53 of 2020
+    (2024, 2, 29),  // leap day
+    (2024, 3, 1),
+    (2024, 12, 30), // Monday of ISO week 1 of 2025
+    (2025, 1, 1),
+    (2026, 1, 1),
+    (2026, 12, 28), // Monday of ISO week 53 of 2026
+    (2027, 1, 1),
+    (2027, 1, 4),
+    (2028, 1, 1),
+    (2038, 1, 19),
+    (2100, 2, 28),  // 2100 is not a leap year
+    (2100, 3, 1),
+];
+
+fn push_case(
+    emit: &mut dyn FnMut(String),
+    kind: &str,
+    tz: &str,
+    inst: (i64, u32),
+    unit: &str,
+    n: i64,
+    modulate: bool,
+    maxdelay: u64,
+    arrivals: &[(i64, u32)],
+) {
+    let arr: Vec<String> = arrivals.iter().map(|(s, ns)| format!("{}:{}", s, ns)).collect();
+    emit(format!(
+        "{}\t{}\t{}\t{}\t{}\t{}\t{}\t{}\t{}",
+        kind,
+        tz_hex(tz),
+        inst.0,
+        inst.1,
+        unit,
+        n,
+        enc_bool(modulate),
+        maxdelay,
+        enc_list(",", &arr)
+    ));
+}
+
+fn unit_secs(unit: &str) -> i64 {
+    match unit {
+        "second" => 1,
+        "minute" => 60,
+        "hour" => 3600,
+        "day" => 86400,
+        "week" => 604800,
+        "month" => 31 * 86400,
+        _ => 366 * 86400,
+    }
+}
+
+struct ZoneInfo {
+    tz: String,
+    bases: Vec<i64>,       // UTC seconds of local unit boundaries (midnights of notable dates)
+    transitions: Vec<i64>, // UTC seconds of offset changes
+}
+
+fn zone_info(tz: &str, thorough: bool) -> ZoneInfo {
+    let q: Vec<String> = CIVIL_BASES.iter().map(|(y, m, d)| format!("{},{},{},0,0,0", y, m, d)).collect();
+    let ans = ask(tz, &format!("resolve\t{}", q.join(";")));
+    let mut bases: Vec<i64> = dec_list(',', &ans).iter().filter_map(|s| s.parse().ok()).collect();
+    let from = if thorough { 0 } else { 1_500_000_000 }; // 1970 / 2017
+    let to = 2_200_000_000i64; // 2039
+    let ans = ask(tz, &format!("transitions\t{}\t{}", from, to));
+    let mut transitions: Vec<i64> = dec_list(',', &ans)
+        .iter()
+        .filter_map(|s| s.split(':').next().and_then(|x| x.parse().ok()))
+        .collect();
+    if !thorough && transitions.len() > 8 {
+        // the first four (historic) and the four around "today" (2026)
+        let near: Vec<i64> = transitions.iter().copied().filter(|t| *t >= 1_770_000_000).take(4).collect();
+        transitions.truncate(4);
+        transitions.extend(near);
+    }
+    bases.sort();
+    bases.dedup();
+    ZoneInfo { tz: tz.to_owned(), bases, transitions }
+}
+
+fn grid_instant(rng: &mut Rng, z: &ZoneInfo) -> (i64, u32) {
+    // an instant from the dense grid around a boundary: base ± k·{1 s, 1 min, 1 h, 1 day}, k ≤ 3,
+    // optionally one nanosecond earlier
+    let use_tr = !z.transitions.is_empty() && rng.chance(1, 2);
+    let base = if use_tr {
+        let t = *rng.pick(&z.transitions);
+        // the transition itself, or the local midnights / hours around it
+        match rng.below(4) {
+            0 => t,
+            1 => t - (t % 3600),
+            2 => t + 86400 - (t % 86400),
+            _ => t - (t % 86400),
+        }
+    } else {
+        *rng.pick(&z.bases)
+    };
+    let scale = *rng.pick(&[1i64, 60, 3600, 86400, 1800, 900]);
+    let k = rng.below(7) as i64 - 3;
+    let mut secs = base + k * scale;
+    if rng.chance(1, 6) {
+        secs += rng.below(7) as i64 - 3;
+    }
+    let nanos = match rng.below(5) {
+        0 => 999_999_999,
+        1 => rng.below(1_000_000_000) as u32,
+        2 => 1,
+        _ => 0,
+    };
+    if nanos == 999_999_999 {
+        secs -= 1;
+    }
+    (secs, nanos)
+}
+
+fn random_instant(rng: &mut Rng) -> (i64, u32) {
+    // 1970 … 2105
+    (rng.below(4_260_000_000) as i64, if rng.chance(1, 2) { 0 } else { rng.below(1_000_000_000) as u32 })
+}
+
+fn pick_n(rng: &mut Rng) -> i64 {
+    *rng.pick(NS)
+}
+
+pub fn gen(rng: &mut Rng, n: usize, thorough: bool, emit: &mut dyn FnMut(String)) {
+    let zones: &[&str] = if thorough { ZONES_ALL } else { ZONES_QUICK };
+    let infos: Vec<ZoneInfo> = zones.iter().map(|z| zone_info(z, thorough)).collect();
+
+    // 1. deterministic block: at every transition of every zone, every unit, n = 1, both modes, the
+    //    instants 30 min / 90 min / 21.5 h after the change and 30 min before it (overlap, gap,
+    //    last hour of a long day)
+    for z in infos.iter() {
+        for t in z.transitions.iter() {
+            for d in [-1800i64, 0, 900, 1800, 5400, 77400, 84600] {
+                for unit in UNITS {
+                    for modulate in [false, true] {
+                        if !thorough && modulate && *unit != "hour" && *unit != "day" {
+                            continue;
+                        }
+                        push_case(emit, "next", &z.tz, (t + d, 0), unit, 1, modulate, 0, &[]);
+                    }
+                }
+            }
+        }
+    }
+    // 2. absurd multipliers ("any configured interval")
+    let absurd: &[i64] = &[
+        i64::MAX,
+        i64::MAX / 1000,
+        i64::MAX / 1000 + 1,
+        i64::MAX / 1000 / 60,
+        i64::MAX / 1000 / 60 + 1,
+        i64::MAX / 1000 / 3600 + 1,
+        i64::MAX / 1000 / 86400 + 1,
+        i64::MAX / 1000 / 604800,
+        i64::MAX / 1000 / 604800 + 1,
+        1 << 31,
+        (1 << 31) - 1,
+        (1 << 31) - 2027,
+        1 << 32,
+        (1 << 32) + 1,
+        (1 << 32) - 1,
+        (1 << 32) - 24400,
+        4_294_942_980,
+        262_142,
+        260_000,
+        3_145_000,
+        95_000_000,
+        13_000_000,
+        8_200_000_000_000,
+        0,
+    ];
+    for z in infos.iter().take(if thorough { 9 } else { 2 }) {
+        for nn in absurd {
+            for unit in UNITS {
+                for modulate in [false, true] {
+                    push_case(emit, "next", &z.tz, (1_790_000_000, 5), unit, *nn, modulate, 0, &[]);
+                }
+            }
+        }
+    }
+    // 3. sampled grid
+    let n_trig = n / 12;
+    let n_next = n - n_trig;
+    for i in 0..n_next {
+        let z = &infos[i % infos.len()];
+        let inst = if rng.chance(1, 8) { random_instant(rng) } else { grid_instant(rng, z) };
+        let unit = *rng.pick(UNITS);
+        let nn = pick_n(rng);
+        let modulate = rng.chance(1, 2);
+        if inst.0 < 0 {
+            continue;
+        }
+        push_case(emit, "next", &z.tz, inst, unit, nn, modulate, 0, &[]);
+    }
+    // 4. trigger histories through the real appender
+    for i in 0..n_trig {
+        let z = &infos[i % infos.len()];
+        let inst = if rng.chance(1, 4) { random_instant(rng) } else { grid_instant(rng, z) };
+        if inst.0 < 0 {
+            continue;
+        }
+        let unit = *rng.pick(UNITS);
+        let nn = if rng.chance(1, 2) { 1 } else { pick_n(rng) };
+        let modulate = rng.chance(1, 2);
+        let maxdelay = if rng.chance(1, 2) { 0 } else { *rng.pick(&[1u64, 2, 5, 60, 3600, 100_000]) };
+        let k = rng.range(2, 10) as usize;
+        let span = unit_secs(unit) * nn;
+        let mut t = inst;
+        let mut arrivals = Vec::new();
+        for _ in 0..k {
+            let step = match rng.below(8) {
+                0 => 0,
+                1 => 1,
+                2 => span / 2,
+                3 => span,
+                4 => span + 1,
+                5 => rng.below(2 * span as u64 + 2) as i64,
+                6 => rng.below(span as u64 / 3 + 2) as i64,
+                _ => 3 * span + rng.below(5) as i64,
+            };
+            let prev = t;
+            t = (t.0 + step, if rng.chance(1, 3) { rng.below(1_000_000_000) as u32 } else { t.1 });
+            if step == 0 && t.1 < prev.1 {
+                t.1 = prev.1;
+            }
+            arrivals.push(t);
+        }
+        if thorough && rng.chance(1, 20) {
+            // a clock that steps backwards once (outside the theorem's hypothesis, inside the model)
+            let j = rng.below(k as u64) as usize;
+            arrivals[j].0 -= span;
+        }
+        push_case(emit, "trig", &z.tz, inst, unit, nn, modulate, maxdelay, &arrivals);
+    }
 }
